@@ -198,12 +198,6 @@ def jobs(tier):
             js.append(Job('dwstate3d[pts=%s,l=1-2,v=%d,b]' % ('x'.join(map(str, npts)), version), dw_state,
                           {'npts': list(npts), 'lmin': 1, 'lmax0': 2, 'version': version, 'boundary': True, 'modified': False, 'box': [0.0, 1.0]},
                           validate=(5 if q else 2), budget_s=(600 if q else 3000)))
-    # ... and strongly one-sided 3-D states: all extra points inside one initial interval per dimension (lmax raised twice in every dimension,
-    # most of the domain unrefined)
-    for version in ((6,) if q else (6, 7, 8)):
-        js.append(Job('dwstate3d-onesided[pts=7x7x7,l=1-2,v=%d,b]' % version, dw_state,
-                      {'npts': [7, 7, 7], 'lmin': 1, 'lmax0': 2, 'version': version, 'boundary': True, 'modified': False, 'box': [0.0, 1.0], 'onesided': True},
-                      validate=(7 if q else 3), budget_s=(600 if q else 3000)))
     hist = [(2, 1, 2, 2), (2, 2, 3, 1)] if q else [(2, 1, 2, 3), (2, 1, 3, 2), (2, 2, 3, 2), (3, 1, 2, 2)]
     for (d, lmin, lmax0, k) in hist:
         for version in b['versions']:
